@@ -5,6 +5,9 @@ import (
 	"time"
 
 	"github.com/bluenviron/gomavlib/v3"
+	"github.com/bluenviron/gomavlib/v3/pkg/message"
+
+	"verif/hd"
 
 	"verif/dsim"
 	"verif/ref"
@@ -65,8 +68,21 @@ type fanItem struct {
 	never   map[*link]bool // links that must not receive it
 }
 
+// fanOpt parametrises the fan-out scenario (shared by C11 and the node-level part of C09).
+type fanOpt struct {
+	manyOps     bool // hundreds of writes per link (beyond the 256 wrap-around)
+	rejected    bool // writers also issue writes that cannot be encoded
+	streamReq   bool // stream requests on; peers announce themselves as ArduPilot
+	check       func(e *env, stable, churn []*link, items [][]fanItem)
+}
+
 func c11Body() func(h []dsim.Rec) {
+	return fanoutRun(fanOpt{check: func(e *env, stable, churn []*link, items [][]fanItem) { e.checkFanout(stable, churn, items) }})
+}
+
+func fanoutRun(opt fanOpt) func(h []dsim.Rec) {
 	cfg := genNodeCfg()
+	cfg.srEnable = opt.streamReq
 	if dsim.Choose(6) == 5 {
 		cfg.dialectKind = 1
 	}
@@ -273,6 +289,13 @@ func c11Body() func(h []dsim.Rec) {
 			}
 		})
 	}
+	if opt.streamReq {
+		// every peer announces an ArduPilot autopilot: the node answers with stream requests
+		for _, l := range stable {
+			l := l
+			d.spawn("peer-hb", func() { l.sendHeartbeat(3) })
+		}
+	}
 	// incoming traffic on stable links
 	for _, l := range stable {
 		l := l
@@ -291,13 +314,36 @@ func c11Body() func(h []dsim.Rec) {
 		w := &writer{e: e, id: wi + 1}
 		e.writers = append(e.writers, w)
 		nops := 1 + dsim.Choose(30)
+		if opt.manyOps {
+			nops = 150 + dsim.Choose(250)
+		}
 		if dsim.Choose(6) == 5 {
 			nops = 60 + dsim.Choose(100)
 		}
 		d.spawn("writer", func() {
 			for j := 0; j < nops; j++ {
 				dsim.EnsureReleased("writer")
+				if opt.rejected && dsim.Choose(10) == 0 {
+					count("fault:rejected-write")
+					dsim.Record("submit-bad", "", nil, int64(wi+1))
+					switch dsim.Choose(3) {
+					case 0:
+						e.node.WriteMessageAll(&message.MessageRaw{ID: 9999, Payload: []byte{1}}) //nolint: id outside the dialect
+					case 1:
+						if cfg.version == 1 {
+							e.node.WriteMessageAll(&hd.MessageVerifHi{X: 3}) //nolint: id 300 on a v1 link
+						}
+					case 2:
+						if err := e.node.WriteMessageAll(&notInDialect{}); err == nil {
+							dsim.Failf("write-accepted", "a decoded message whose type is not in the dialect was accepted")
+						}
+					}
+					continue
+				}
 				op := dsim.Choose(numOps)
+				if opt.manyOps && op >= opFrameAll && dsim.Choose(3) != 0 {
+					op -= 3 // mostly originated messages
+				}
 				if !e.cfg.hasDialect() {
 					op = opFrameAll + op%3 // without a dialect only pre-built frames can be written
 				}
@@ -396,7 +442,7 @@ func c11Body() func(h []dsim.Rec) {
 		node2.Close()
 	}
 	return func(h []dsim.Rec) {
-		e.checkFanout(stable, churnLinks, items)
+		opt.check(e, stable, churnLinks, items)
 		if foreignLink != nil {
 			frames, _, _, _ := ref.ParseStream(foreignLink.wire())
 			for _, f := range frames {
